@@ -84,6 +84,24 @@ Theorem C02_declarations_commute_static_define :
     st_equiv s12 s21.
 Proof. exact static_define_commute. Qed.
 
+(* (define, define) in the fresh fragment: two new steps with different labels defined by attached
+   creators; the paths of the two requests may overlap (a common input, an output of one that is
+   an input of the other).  If both are accepted in both orders the graphs agree on every look-up:
+   in particular a path that one step supplies as an input and the other builds is owned by the
+   builder, PLANNED, with both edges, whichever request arrived first. *)
+Theorem C02_declarations_commute_define_define :
+  forall (s sa sb s12 s21 : st)
+         (c1 : key) (L1 : str) (i1 e1 o1 v1 : list str) (n1 : need)
+         (c2 : key) (L2 : str) (i2 e2 o2 v2 : list str) (n2 : need),
+    L1 <> L2 -> not_file c1 -> not_file c2 -> attached c1 s = true -> attached c2 s = true ->
+    fresh_define L1 i1 o1 v1 s -> fresh_define L2 i2 o2 v2 s -> deps_closed s ->
+    step_op (OpDefineStep c1 L1 i1 e1 o1 v1 n1) s = Ok sa ->
+    step_op (OpDefineStep c2 L2 i2 e2 o2 v2 n2) sa = Ok s12 ->
+    step_op (OpDefineStep c2 L2 i2 e2 o2 v2 n2) s = Ok sb ->
+    step_op (OpDefineStep c1 L1 i1 e1 o1 v1 n1) sb = Ok s21 ->
+    st_equiv s12 s21.
+Proof. exact define_define_commute. Qed.
+
 (* the look-up characterisation of define_step for a new label that the pair theorems rest on *)
 Theorem C02_define_step_new_characterised :
   forall c L inp env out vol nd s s',
@@ -253,5 +271,15 @@ Example C02_static_define_example :
   let r1 := OpDeclareStatic (KStep, [98]) [[120]] in
   let r2 := OpDefineStep (KStep, [97]) [99] [[120]] [] [[121]] [] NDefault in
   find_node (KStep, [99]) s = None /\ recreated s [120] = true /\
+  both_orders r1 r2 s = VCommute.
+Proof. vm_compute. repeat split; reflexivity. Qed.
+
+(* non-vacuity of C02_declarations_commute_define_define: a defines c (x -> y), b defines d
+   (x, y -> z): common input x, output of one is input of the other; accepted in both orders *)
+Example C02_define_define_example :
+  let s := run_ops ex_boot (init_st 3) in
+  let r1 := OpDefineStep (KStep, [97]) [99] [[120]] [] [[121]] [] NDefault in
+  let r2 := OpDefineStep (KStep, [98]) [100] [[120]; [121]] [] [[122]] [] NDefault in
+  find_node (KStep, [99]) s = None /\ find_node (KStep, [100]) s = None /\
   both_orders r1 r2 s = VCommute.
 Proof. vm_compute. repeat split; reflexivity. Qed.
